@@ -40,3 +40,22 @@ static_assert(std::extent<decltype(B::m_states)>::value == 2, "IDS-006: one acti
 static_assert(MP::get_state_id<Fe_::Sa>() == 0 && MP::get_state_id<Fe_::Sb>() == 1 && MP::get_state_id<Fe_::Sc>() == 2, "IDS-007: backmp11 numbers source states top-down");
 static_assert(MP::get_state_id<Fe_::Td>() == 3 && MP::get_state_id<Fe_::Ri>() == 4, "IDS-008: backmp11 numbers targets, then remaining initial states");
 static_assert(MP::nr_regions == 2, "IDS-009: backmp11 region count");
+// region of an explicit-entry state declared WITHOUT a zone index (explicit_entry<>): back deduces it from the region the state is
+// reachable in; three regions, entries into the first, the middle and the last one
+struct Rg_ : msm::front::state_machine_def<Rg_>
+{
+    struct A0 : msm::front::state<> {}; struct B0 : msm::front::state<> {}; struct C0 : msm::front::state<> {};
+    struct A1 : msm::front::state<>, msm::front::explicit_entry<> {};
+    struct B1 : msm::front::state<>, msm::front::explicit_entry<> {};
+    struct C1 : msm::front::state<>, msm::front::explicit_entry<> {};
+    typedef mpl::vector<A0, B0, C0> initial_state;
+    struct transition_table : mpl::vector<
+        Row<A0, i_e1, A1, none, none>,
+        Row<B0, i_e2, B1, none, none>,
+        Row<C0, i_e3, C1, none, none>
+    > {};
+};
+typedef msm::back::state_machine<Rg_> RB;
+static_assert(RB::find_region_id<Rg_::A1>::region_index == 0, "IDS-R01: back deduces region 0 for an explicit entry reachable from the first initial state");
+static_assert(RB::find_region_id<Rg_::B1>::region_index == 1, "IDS-R02: back deduces region 1 for an explicit entry reachable from the second initial state");
+static_assert(RB::find_region_id<Rg_::C1>::region_index == 2, "IDS-R03: back deduces region 2 for an explicit entry reachable from the third initial state");
